@@ -108,7 +108,8 @@ def _open(rng):
 
 
 BAD = ["len0", "len_neg", "len_str", "len_float", "order8", "order10", "order16", "order32", "order6", "order0",
-       "len_none_kw_ok"]
+       "len_none_kw_ok", "order40:def", "order63:def", "order12:def", "order8:huge", "order1:huge", "order64:def",
+       "order33:huge"]
 
 
 def generate(seed, tier):
@@ -385,7 +386,13 @@ class Consumer:
                 raise Violation("C04/args", f"len=None gave {len(out[0].data)} bits for order {order}", "args/lennone")
             return "ok"
         else:
-            kw["order"] = int(what[5:])
+            # unsupported orders are refused whatever length goes with them (default, unallocatable ...)
+            o, _, ln = what[5:].partition(":")
+            kw["order"] = int(o)
+            if ln == "def":
+                kw["len"] = None
+            elif ln == "huge":
+                kw["len"] = 2 ** 50 + 3
             allowed = (ValueError,)
         try:
             out, _ = self._call(**kw)
